@@ -360,6 +360,51 @@ class lodict(odict):
             super(lodict, self).__setitem__(key.lower(), default)
         return default
 
+    def pop(self, key, *default):
+        """
+        Make key lowercase then pop
+        """
+        return super(lodict, self).pop(key.lower(), *default)
+
+    def insert(self, index, key, val):
+        """
+        Make key lowercase then insert
+        """
+        super(lodict, self).insert(index, key.lower(), val)
+
+    def create(self, *pa, **kwa):
+        """
+        Create items in this lodict but only if lowercase key not already existent
+        """
+        for a in pa:
+            if hasattr(a, 'get'): #positional arg is dictionary
+                for k in a:
+                    if k not in self:
+                        self[k] = a[k]
+            else: #positional arg is sequence of duples (k,v)
+                for k, v in a:
+                    if k not in self:
+                        self[k] = v
+
+        for k in kwa:
+            if k not in self:
+                self[k] = kwa[k]
+
+    def sift(self, fields=None):
+        """
+        Make fields lowercase then sift
+        """
+        if fields is not None:
+            fields = [key.lower() for key in fields]
+        return super(lodict, self).sift(fields)
+
+    def reorder(self, other):
+        """
+        Make keys of other lowercase then reorder
+        """
+        if isinstance(other, odict) and not isinstance(other, lodict):
+            other = lodict(other)
+        super(lodict, self).reorder(other)
 
     def update(self, *pa, **kwa):
         """
